@@ -41,6 +41,8 @@ def T0 : Nat := 1000000000
 
 /-- all_users grows by this many slots (comm.c new_interactive) -/
 abbrev userChunk : Nat := NV.Gen.C09.userChunk
+/-- MAX_VERB_BUFF of user_parser() (simulate.c) -/
+abbrev maxVerbBuff : Nat := NV.Gen.C09.maxVerbBuff
 /-- look_for_objects_to_swap runs every `sweepPeriod` seconds -/
 abbrev sweepPeriod : Nat := NV.Gen.C09.sweepPeriod
 /-- ResetDuration of the verification configuration: next_reset = now + D/2 + rand () % (D/2); the configuration
@@ -417,7 +419,10 @@ def mudlibConnect (S : Scripts) (w : W) : W × Option Oid × Bool :=
   let w := { w with nConnect := k }
   let w := emit w (.tConnect k)
   match S.connect k with
-  | .err => (errorHandler (emit w (.xErr s!"k{k}")) s!"boom {s!"k{k}"}", none, true)
+  | .err =>
+    -- safe_apply_master_ob (fix commit): connect() runs under its own recovery point; the error is reported as
+    -- usual and the connection then counts as rejected (the caller removes the record bound to the master)
+    (popCtx (errorHandler (emit (pushCtx w) (.xErr s!"k{k}")) s!"boom {s!"k{k}"}"), none, false)
   | .rej => (w, none, false)
   | .ok =>
     match w.inter .master with
@@ -563,8 +568,10 @@ def inputStage (rh : HookFn) (w : W) (cg : Oid) (line : String) (hasPI : Bool) :
 def commandStage (rh : HookFn) (w : W) (cg : Oid) (line : String) : R :=
   if cg = .master then (w, false)           -- user_parser(): no O_ENABLE_COMMANDS, nothing happens
   else if w.dead cg then (w, false) else
-    let r := rh (emit w (.tCmd cg line)) cg (.cmd line)
-    if r.2 then (r.1, true) else (addOut r.1 cg s!"ack_{line}|", false)
+    -- user_parser(): the verb is copied into verb_buff[MAX_VERB_BUFF] (strncpy, MAX_VERB_BUFF - 1 characters)
+    let verb := (line.take (maxVerbBuff - 1)).toString
+    let r := rh (emit w (.tCmd cg verb)) cg (.cmd verb)
+    if r.2 then (r.1, true) else (addOut r.1 cg s!"ack_{verb}|", false)
 
 /-- process_user_command() once get_user_command() has picked a record: (state, processed, uncaught error) -/
 def serveCommand (rh : HookFn) (w : W) (c0 : Conn) : W × Bool × Bool :=
